@@ -18,7 +18,7 @@ fn sgn(r: &mut Rng) -> f64 {
 fn load_frac_case(m: &mut M, r: &mut Rng, d: usize) {
     loop {
         let s = sgn(r);
-        let (hi, lo): (f64, f64) = match r.below(14) {
+        let (hi, lo): (f64, f64) = match r.below(16) {
             // fraction only in hi: small numbers
             0 => (s * (r.range(0, 1 << 20) as f64 + *r.pick(&[0.5, 0.25, 0.75, 0.0, 0.125])), lo_candidate(r, 1.0) * 1e-3),
             // integer hi, low word integer / half / fractional / tiny
@@ -73,6 +73,20 @@ fn load_frac_case(m: &mut M, r: &mut Rng, d: usize) {
             }
             // zeros
             12 => (s * 0.0, sgn(r) * 0.0),
+            // integer high word, low word one ulp either side of a rounding threshold (0.5, 1, k + 0.5, k)
+            13 => {
+                let k = r.range(52, 110) as i32;
+                let h = s * f64::from_bits((((k + 1023) as u64) << 52) | r.frac52());
+                let t = *r.pick(&[0.5, 1.0, 1.5, 2.0, 2.5, 0.25, 1024.5, 4096.0]);
+                let l = sgn(r) * if r.coin() { next_down_mag(t) } else { next_up_mag(t) };
+                (h, l)
+            }
+            // high word one ulp either side of a half-integer / integer, small or zero low word
+            14 => {
+                let t = r.range(0, 1 << 20) as f64 + *r.pick(&[0.5, 0.0, 1.0]);
+                let h = s * if r.coin() { next_down_mag(t.max(0.5)) } else { next_up_mag(t) };
+                (h, if r.coin() { 0.0 } else { lo_candidate(r, h) })
+            }
             _ => {
                 let h = r.f64_in(-10, 110);
                 (h, lo_candidate(r, h))
